@@ -169,4 +169,10 @@ theorem C14_exit_success_path (repaired : Bool) :
 theorem C14_unrepaired_exit_hangs_counterexample :
     exitHangs true (exitSteps false true false) = true ∧ exitHangs true (exitSteps true true false) = false := by decide
 
+/-- **F14**: a worker never blocks on the progress counter, whatever happened to its lock; before the
+    repair a lost lock stopped every other worker at its next progress update -/
+theorem C14_worker_progress_update_bounded (lockLost : Bool) :
+    workerUpdateBlocks true lockLost = false ∧ workerUpdateBlocks false true = true := by
+  cases lockLost <;> decide
+
 end B2Z.Sched
